@@ -195,3 +195,13 @@ Print Assumptions C02_example_conversation.
 Theorem C02_example_predefined : ex_predef_statement.
 Proof. exact ex_predef. Qed.
 Print Assumptions C02_example_predefined.
+
+(* Colang 2, repaired model: the conversation of C02_v2_flag_refuted keeps the flag clear and
+   checks the bot message of every turn (the hypotheses of C02_v2_flag_invariant are inhabited) *)
+Theorem C02_example_v2_repaired :
+  map (fun r => (orip (fst (fst r)), n_rail_calls (snd (fst r)), snd r))
+      (conv_v2 true f3_vf (fun _ _ _ => "m") (fun o => o) "ri" "ro"
+               (mkCfg2 [] [7] false) init_state2 ["a"; "b"; "c"])
+  = [(false, 1, RMsg ["m"]); (false, 1, RMsg ["ro"]); (false, 1, RMsg ["m"])].
+Proof. exact v2_flag_repaired_witness. Qed.
+Print Assumptions C02_example_v2_repaired.
